@@ -387,6 +387,10 @@ thread_local! {
     pub static INFLIGHT: std::cell::Cell<(*mut u8, usize)> = const { std::cell::Cell::new((std::ptr::null_mut(), 0)) };
 }
 
+/// Cold-start pass: when set, the cached feature cell is reset to 0 ("not yet detected")
+/// before every call, so that each call takes the dispatcher's first-call path.
+pub static COLD: std::sync::atomic::AtomicBool = std::sync::atomic::AtomicBool::new(false);
+
 /// The global runtime-backend value last set through `set_backend`.
 pub static BACKEND: std::sync::atomic::AtomicU8 = std::sync::atomic::AtomicU8::new(0);
 
@@ -395,12 +399,15 @@ pub static BACKEND: std::sync::atomic::AtomicU8 = std::sync::atomic::AtomicU8::n
 /// different value.
 pub fn set_backend(v: u8) {
     BACKEND.store(v, std::sync::atomic::Ordering::SeqCst);
-    httparse::_verif::simd::set_runtime_feature(v);
+    // 255 = cold-start mode: the cell is reset to 0 before every call (see COLD)
+    COLD.store(v == 255, std::sync::atomic::Ordering::SeqCst);
+    httparse::_verif::simd::set_runtime_feature(if v == 255 { 0 } else { v });
 }
 
 pub fn backend_name(v: u8) -> &'static str {
     match v {
         0 => "runtime-detect",
+        255 => "cold-start (cell reset before every call)",
         1 => "avx2",
         2 => "sse4.2",
         _ => "scalar",
@@ -622,6 +629,9 @@ impl Ctx {
         };
         unsafe { std::ptr::write_bytes(canary_ptr, 0xC3, 64) };
         httparse::_verif::counters::reset();
+        if COLD.load(std::sync::atomic::Ordering::Relaxed) {
+            httparse::_verif::simd::set_runtime_feature(0);
+        }
         IN_PARSER.with(|c| c.set(true));
         let r = catch_unwind(AssertUnwindSafe(|| {
             match entry.kind() {
